@@ -38,6 +38,12 @@ CLAIMED = {
                 text='On every accepting path each registered validator ran exactly once with (its key, payload[key]) and returned Ok; a validator error fails the parse; when the core rejects, no validator is called and the error is CipherError - for verify_claims and all 16 parse bodies.'),
     'C17': dict(engine=E2, cat=MC, ref='DESIGN.md 6 (C17)', technique=TECH, note='Trusted: MIR dump; HashSet/HashMap as arrays; representation invariant with ghost supply counts (vf/props/c17.py).',
                 text='Inductive step from ANY PasetoBuilder state satisfying the invariant (duplicate flag <=> some key supplied twice, modulo the exp-after-acknowledgement latitude): set_claim and the acknowledgement preserve it; build() of all 8 protocols returns DuplicateTopLevelPayloadClaim(flagged key) iff the flag is set, without reaching the core, and leaves flag/key set unchanged (every later build fails too).'),
+    'C10': dict(engine=E2, cat=MC, ref='DESIGN.md 6 (C10)', technique=TECH, note='Trusted: SystemRandom::fill returns fresh unpredictable bytes per call (the statistical clause of the property - per-bit frequencies over 10^5 builds - is a property of the OS RNG and is NOT claimed); truncated HMAC / BLAKE2b-24 collision free; core summarised for builder runs.',
+                text='For all 4 local protocols and both builder layers (8 bodies): on every successful build exactly one RNG draw happens and the nonce handed to the core is that draw in full; build() changes no builder field (nothing can be cached for the next build); at core level equal wire nonces imply equal seeds (and messages for v1/v2). Histories of any length follow from the per-build statement.'),
+    'C14': dict(engine=E2, cat=MC, ref='DESIGN.md 6 (C14)', technique=TECH, note='Trusted: MIR dump; serde_json from_str(to_string(v)) = v; maps as arrays; user claim types serialise as {key: value}; the crate\'s own claim types are executed (get_key + Serialize from MIR).',
+                text='Frame conditions of GenericBuilder::set_claim / remove_claim on an arbitrary claims map (claims[k]=v, last wins, others untouched), build_payload_from_claims yields exactly the stored members, wrap_value(v)=v by an inductive step over the JSON structure, the seven typed claim constructors land under their registered keys, and for all 8 protocols parse(build(claims)) returns an object whose members are the stored claims.'),
+    'C18': dict(engine=E2, cat=MC, ref='DESIGN.md 6 (C18)', technique=TECH + '; Kani 0.68 leaf harness over all UTF-8 keys of <= 4 bytes', note='Trusted: MIR dump; SMT strings; iso8601::datetime uninterpreted (its acceptance set is the iso8601 crate\'s contract).',
+                text='The three CustomClaim::try_from bodies on an arbitrary string key: Err(Reserved) iff the key is exactly one of the seven registered names, key stored verbatim; the six time-claim constructors accept exactly when iso8601::datetime accepts the caller\'s own text and keep it verbatim under exp/nbf/iat; Kani repeats the reserved-key question bit-precisely on the compiled code for every key of 3-4 bytes.'),
 }
 
 REASON_NOT_YET = 'check under construction in this round - not claimed until its command exists'
